@@ -36,6 +36,9 @@ def alphabet(ref, task):
     ev = []
     for h in ref.attached_handles():
         ev += compact_dict(h) if ref.handle_kind(h) == "dict" else compact_list(h)
+        # type-twins of the current content written through one handle: every other (stale) handle holds values
+        # that compare == to them and must not write those back
+        ev += alpha.twin_events(ref, h)[:1]
     if task["extra"].get("reads"):
         for h in ref.attached_handles():
             ev.append(("op", h, "call", ()))
